@@ -90,14 +90,27 @@ func (st *pstate) fmtArg(fr *frame, verb byte, arg value) []value {
 	panic(unsupported(fmt.Sprintf("fmt operand of dynamic type %s (%T)", itf.t, v)))
 }
 
-// sprintf supports %v %s %d %q %w %T %c %% without flags.
-func (st *pstate) sprintf(fr *frame, format string, va []value) (value, int) {
+// sprintf supports %v %s %d %q %w %T %c %% without flags.  The format may itself contain symbolic
+// bytes (a format string assembled from input, e.g. Sprintf(text+"%s", x)): for each of them the
+// solver decides whether it can be a '%'; if it can, that is a path of its own on which the byte
+// starts a verb (reported as unsupported unless the verb that follows is concrete).
+func (st *pstate) sprintf(fr *frame, formatV value, va []value) (value, int) {
+	format := strBytes(formatV)
+	isPercent := func(e value) bool {
+		switch x := e.(type) {
+		case uint8:
+			return x == '%'
+		case symInt:
+			return st.branch("(= " + x.t + " " + bvConst('%', 8) + ")")
+		}
+		panic(unsupported(fmt.Sprintf("format byte of type %T", e)))
+	}
 	var out []value
 	ai := 0
 	wrapped := -1
 	for i := 0; i < len(format); i++ {
 		c := format[i]
-		if c != '%' {
+		if !isPercent(c) {
 			out = append(out, c)
 			continue
 		}
@@ -106,13 +119,27 @@ func (st *pstate) sprintf(fr *frame, format string, va []value) (value, int) {
 			out = append(out, strBytes("%!(NOVERB)")...)
 			break
 		}
-		verb := format[i]
+		vb, ok := format[i].(uint8)
+		if !ok {
+			panic(unsupported("fmt verb given by a symbolic byte"))
+		}
+		verb := vb
 		if verb == '%' {
 			out = append(out, uint8('%'))
 			continue
 		}
 		if !strings.ContainsRune("vsdqwTc", rune(verb)) {
-			panic(unsupported("fmt verb %" + string(verb) + " in " + strconv.Quote(format)))
+			if verb == ' ' || verb == '!' || verb == '=' || verb == ')' || verb == '\n' || verb == '}' {
+				// what fmt prints for a verb it does not know (flags are not modelled: a blank is a
+				// flag for fmt, the following byte the verb; the text differs from fmt's only inside
+				// the %!x(...) complaint, which no specification of the output contains)
+				out = append(out, strBytes("%!"+string(verb)+"(BADVERB)")...)
+				if ai < len(va) {
+					ai++
+				}
+				continue
+			}
+			panic(unsupported("fmt verb %" + string(verb)))
 		}
 		if ai >= len(va) {
 			out = append(out, strBytes("%!"+string(verb)+"(MISSING)")...)
@@ -125,7 +152,7 @@ func (st *pstate) sprintf(fr *frame, format string, va []value) (value, int) {
 		ai++
 	}
 	if ai < len(va) {
-		panic(unsupported("fmt: extra operands"))
+		out = append(out, strBytes("%!(EXTRA)")...)
 	}
 	return mkStr(out), wrapped
 }
@@ -133,7 +160,7 @@ func (st *pstate) sprintf(fr *frame, format string, va []value) (value, int) {
 func init() {
 	intrinsics["fmt.Sprintf"] = func(st *pstate, fr *frame, fn *ssa.Function, args []value) value {
 		va, _ := args[1].([]value)
-		r, _ := st.sprintf(fr, goStr(args[0]), va)
+		r, _ := st.sprintf(fr, args[0], va)
 		return r
 	}
 	intrinsics["fmt.Errorf"] = func(st *pstate, fr *frame, fn *ssa.Function, args []value) value {
